@@ -1281,6 +1281,17 @@ func (c *Context) quantize(d, v *Decimal, exp int32) Condition {
 			// it; otherwise a context with MinExponent == 0 would treat 0.x
 			// as subnormal.
 			nc.MinExponent = MinExponent
+			// Adjusted exponents in that frame are exp lower than the real
+			// ones, so the largest one allowed is too (a context with
+			// MaxExponent 3 can hold 123.45679, whose coefficient has 8
+			// digits).
+			if emax := int64(c.MaxExponent) - int64(exp); emax > MaxExponent {
+				nc.MaxExponent = MaxExponent
+			} else if emax < MinExponent {
+				nc.MaxExponent = MinExponent
+			} else {
+				nc.MaxExponent = int32(emax)
+			}
 
 			// The idea here is that the resulting d.Exponent after rounding will be 0. We
 			// have a number of, say, 5 digits, but p (our precision) above is set at, say,
